@@ -39,9 +39,19 @@ def _branch_roles(body):
             if isinstance(n, ast.Call) and call_name(n) == 'rso_broadcast':
                 roles = []
                 for a in n.args:
-                    t = ntext(_expand(a))
-                    roles.append('in' if 'affine_in' in t else 'scale' if 'affine_scale' in t
-                                 else 'out' if 'affine_out' in t else '?')
+                    # a sign applied where the operand is handed to the broadcast travels with it
+                    sgn = ''
+                    ax = a
+                    while isinstance(ax, ast.UnaryOp) and isinstance(ax.op, ast.USub):
+                        sgn = '' if sgn else '-'
+                        ax = ax.operand
+                    ex_ = _expand(ax)
+                    while isinstance(ex_, ast.UnaryOp) and isinstance(ex_.op, ast.USub):
+                        sgn = '' if sgn else '-'
+                        ex_ = ex_.operand
+                    t = ntext(ex_)
+                    roles.append(sgn + ('in' if 'affine_in' in t else 'scale' if 'affine_scale' in t
+                                        else 'out' if 'affine_out' in t else '?'))
     if roles is None:
         raise AnalysisError('R30: rso_broadcast(...) not found in a lowering branch')
     for st in body:
@@ -59,6 +69,8 @@ def _branch_roles(body):
                         r = roles[a.slice.value]
                     else:
                         raise AnalysisError('R30: ExpConstr argument `%s` not interpreted' % ntext(a)[:30])
+                    if r.startswith('-'):
+                        neg, r = not neg, r[1:]
                     trip.append(('-' if neg else '') + r)
                 out.append(tuple(trip))
     return out
